@@ -370,12 +370,13 @@ def shrink(propmod, plan, target_cls, worker, max_runs=400):
         if hasattr(propmod, 'shrink_args'):
             cur = propmod.shrink_args(cur, fails)
         return cur, runs[0]
-    # ddmin over cycles
+    # ddmin over cycles (the first meta['keep_cycles'] cycles are the plan's fixed preamble and stay)
     n = 2
+    keep = int(cur.meta.get('keep_cycles', 0)) if isinstance(cur.meta, dict) else 0
     while len(cur.cycles) >= 2 and runs[0] < max_runs:
         chunk = max(1, len(cur.cycles) // n)
         reduced = False
-        for start in range(0, len(cur.cycles), chunk):
+        for start in range(keep, len(cur.cycles), chunk):
             cand = cur.copy()
             del cand.cycles[start:start + chunk]
             if cand.cycles and fails(cand):
@@ -386,7 +387,7 @@ def shrink(propmod, plan, target_cls, worker, max_runs=400):
                 break
             n = min(n * 2, len(cur.cycles))
     # steps inside cycles
-    ci = 0
+    ci = keep
     while ci < len(cur.cycles) and runs[0] < max_runs:
         si = 0
         while len(cur.cycles[ci]) > 1 and si < len(cur.cycles[ci]) and runs[0] < max_runs:
@@ -473,7 +474,7 @@ def run_check(propmod, prop, tier, verif_seed, n_runs, variant='asan', jobs=None
     errors = [r for r in results if 'error' in r]
     if errors:
         sys.stderr.write(errors[0]['error'])
-        sys.stderr.write('HARNESS ERROR in %d runs\n' % len(errors))
+        sys.stderr.write('HARNESS ERROR in %d runs (first seed index %d)\n' % (len(errors), errors[0]['i']))
         return 2
     det_bad = [r for r in det if main[r['i']]['hash'] != r['hash']]
     if det_bad:
